@@ -249,7 +249,8 @@ func (g *docGen) block(d int) string {
 
 func (g *docGen) verbatim() string {
 	g.used["verbatim"]++
-	body := g.rg.pick([]string{"", "{{ x }}", "{% if %}", "raw\ntext", "{# c #}", "{% endverbatim", "a{{b}}c{%d%}"})
+	body := g.rg.pick([]string{"", "{{ x }}", "{% if %}", "raw\ntext", "{# c #}", "{% endverbatim", "a{{b}}c{%d%}",
+		"a{% verbatim %}b", "{% verbatim %}", "{%verbatim%}x", "{% verbatim  %}", "{% endverbatim x %}", "{% end verbatim %}", "{{", "{%", "{#", "%}{% verbatim %}{{"})
 	return "{% verbatim %}" + body + "{% endverbatim %}"
 }
 
